@@ -11,7 +11,7 @@ use std::net::IpAddr;
 fn budget(t: Tier) -> u64 {
     match t {
         Tier::Quick => 2_700,
-        Tier::Thorough => 50_000,
+        Tier::Thorough => 100_000,
     }
 }
 
